@@ -30,6 +30,7 @@ LEVEL_TEXT = (
     "process, and every sequence of <= 3 (thorough 4) simulator operations and model edits with the "
     "integrator's Jacobian compared against finite differences of the model's current right-hand side. "
     ' Also: user rate laws that call helpers with keyword arguments.'
+    " Also: module-level numbers named like the laws' arguments; a sign-guarded user law evaluated at negative states; symbols are bound by name, whatever assumptions they carry."
 )
 LEVEL_NOTE = "trusted: numeric Model RHS (C01), scipy integrators, Richardson-extrapolated central differences (error ~1e-9 relative on these rational functions)"
 RULE = (
